@@ -371,17 +371,20 @@ PRINTERS = {'XML': (to_xml, '.xml'), 'JSON': (to_json, '.json'), 'YAML': (to_yam
 # ---------------------------------------------------------------------------------------------
 
 def _first(attrs, tag):
+    """Content of the first element `tag` that is set (a null entry is an unset one)."""
     for t, x in attrs:
-        if t == tag:
+        if t == tag and not absent(x):
             return x
     return None
 
 
 def model_prop(p):
-    """Expected 1.1 Property content + the texts that get dropped on the way."""
+    """Expected 1.1 Property content + the texts that get dropped on the way.
+    exp[...] is None where the statement prescribes nothing (attribute absent in 1.0, or an EMPTY first
+    occurrence followed by a real one: whether '' counts as the "first encountered" one is left open)."""
     exp = {'name': p['name'], 'id': p['id']}
     dropped = []
-    pa = [(t, x) for t, x in p['attrs'] if t != '#comment']
+    pa = [(t, x) for t, x in p['attrs'] if t != '#comment' and not absent(x)]
     exp['dependency'] = _first(pa, 'dependency')
     dv = _first(pa, 'dependency_value')
     if dv is None:
@@ -390,22 +393,33 @@ def model_prop(p):
     for t, x in pa:
         if t not in ('definition', 'dependency', 'dependency_value', 'dependencyvalue'):
             dropped.append(('prop-unsupported', t, x))
-    kept = {'definition': _first(pa, 'definition')}
+    kept = {}
+    open_ = set()
+    own = _first(pa, 'definition')
+    if own is not None:
+        kept['definition'] = own
+        if own == '':
+            open_.add('definition')
     conflicts = []
     for v in p['values']:
         for t, x in v['attrs']:
-            if t == '#comment':
+            if t == '#comment' or absent(x):
                 continue
             if t == 'dtype':
                 t = 'type'
             if t not in VAL_ATTRS:
                 dropped.append(('value-unsupported', t, x))
                 continue
-            if kept.get(t) is None:
+            if t not in kept:
                 kept[t] = x
-            elif kept[t] != x:
+                if x == '':
+                    open_.add(t)
+            elif t not in open_ and x != '' and not same_abs(kept[t], x):
                 conflicts.append((t, x))
-    exp['values'] = [v['text'].strip() for v in p['values'] if v['text'] is not None and v['text'].strip()]
+    for t in open_:
+        kept[t] = None
+    exp['values'] = [v['text'] for v in p['values']
+                     if not absent(v['text']) and not (isinstance(v['text'], str) and not v['text'].strip())]
     exp['unit'] = kept.get('unit')
     exp['uncertainty'] = kept.get('uncertainty')
     exp['dtype'] = 'text' if kept.get('type') == 'binary' else kept.get('type')
@@ -416,18 +430,34 @@ def model_prop(p):
 
 
 def conv_value(dtype, s):
+    """The value a 1.1 Property of `dtype` holds for the text s (own conversion; raises when s is no such text)."""
     if dtype == 'int':
         return int(s)
     if dtype == 'float':
         return float(s)
+    if dtype == 'boolean':
+        return {'true': True, 'false': False}[s.lower()]
+    if dtype == 'date':
+        return dt.date.fromisoformat(s)
+    if dtype == 'datetime':
+        return dt.datetime.strptime(s, DT_FORMAT)
     return s
 
 
 def valid_uuid(s):
+    if is_nat(s):
+        s = nat(s)
     try:
-        return uuid.UUID(s) if s else None
+        return uuid.UUID(s) if s and isinstance(s, str) else None
     except (ValueError, AttributeError, TypeError):
         return None
+
+
+def logged(log, tag, x):
+    """Is the dropped content x of element `tag` recorded in the conversion log?"""
+    if isinstance(x, str):
+        return any(x in str(m) for m in log)
+    return any(tag in str(m) and any(sp in str(m) for sp in spellings(x)) for m in log)
 
 
 # ---------------------------------------------------------------------------------------------
@@ -435,7 +465,7 @@ def valid_uuid(s):
 # ---------------------------------------------------------------------------------------------
 
 def values_feature(texts):
-    texts = [t for t in texts if t]
+    texts = [spell(t) for t in texts if not absent(t) and t != '']
     if len(texts) == 1:
         t = texts[0]
         if t[0] == '[' and t[-1] == ']':
@@ -471,7 +501,23 @@ def names_feature(names):
 def doc_features(doc, fmt, src):
     """Coarse doc level features in priority order, used to label failures that cannot be localised."""
     out = []
-    if src == 'stringio' and fmt != 'XML':
+
+    def natives(level, texts):
+        # a set native scalar outside the value elements (the dict based sources only; XML holds its spelling)
+        if fmt != 'XML' and any(is_nat(x) and not absent(x) for x in texts):
+            out.append('native-scalar-in-%s-attribute' % level)
+
+    natives('document', [x for _, x in doc['attrs']] + [doc['id']])
+
+    def nat_rec(sec):
+        natives('section', [x for _, x in sec['attrs']] + [sec['id']])
+        for p in sec['props']:
+            natives('property', [x for _, x in p['attrs']] + [p['id']])
+        for c in sec['secs']:
+            nat_rec(c)
+    for s in doc['secs']:
+        nat_rec(s)
+    if src.startswith('stringio') and fmt != 'XML':
         out.append('stringio-source-with-%s-backend' % fmt.lower())
 
     def rec(sec):
@@ -552,16 +598,18 @@ def check_names(ck, kind, orig, got, wit):
                     % (kind, o, g, orig, got))
 
 
-def check_id(ck, kind, spec, got, wit):
+def check_id(ck, level, spec, got, wit):
     want = valid_uuid(spec)
     gotu = valid_uuid(got)
     label = 'absent' if spec is None else ('valid' if want is not None else 'malformed')
     if spec is not None and want is not None and spec != str(want):
         label = 'valid-noncanonical'
+    if is_nat(spec):
+        label = 'null' if absent(spec) else 'malformed-' + kind(spec)
     if gotu is None:
-        ck.fail('id-valid', '%s-id-%s' % (kind, label), wit, '%s id %r became %r which is no uuid' % (kind, spec, got))
+        ck.fail('id-valid', '%s-id-%s' % (level, label), wit, '%s id %r became %r which is no uuid' % (level, spec, got))
     elif want is not None and gotu != want:
-        ck.fail('id-kept', '%s-id-%s' % (kind, label), wit, 'valid %s id %r not kept, became %r' % (kind, spec, got))
+        ck.fail('id-kept', '%s-id-%s' % (level, label), wit, 'valid %s id %r not kept, became %r' % (level, spec, got))
 
 
 def check_raw_output(ck, out, wit):
@@ -597,8 +645,26 @@ def check_raw_output(ck, out, wit):
     return ok
 
 
+def _kinds(texts):
+    """Label of the native scalars among some text positions ('strings' when there is none)."""
+    ks = sorted(set(kind(x) for x in texts if is_nat(x)))
+    return '+'.join(ks) if ks else 'strings'
+
+
+def _match_value(e, g, dtype):
+    """Does the loaded value g carry the content of the 1.0 value content e? None: no opinion."""
+    if isinstance(e, str):
+        st, want = h.call(conv_value, dtype, e.strip())
+        if st == 'exc':
+            return None
+        return _canon(want) == _canon(g)
+    return same_scalar(e, g)
+
+
 def check_case(ck, doc, fmt, src, out, log, wit):
-    """out: converted XML string; log: conversion_log. Compares with the model."""
+    """out: converted XML string; log: conversion_log. Compares with the model.
+    Returns the observed content {(path, field): (value, label of the native scalars behind it)} for the
+    comparison between the source formats, or None when the result could not be loaded."""
     raw_ok = check_raw_output(ck, out, wit)
     st, res = h.call(lambda: XMLReader(ignore_errors=False, show_warnings=False).from_string(out))
     if st == 'exc':
@@ -608,97 +674,139 @@ def check_case(ck, doc, fmt, src, out, log, wit):
             feats = doc_features(doc, fmt, src)
             ck.fail('loads-strict', feats[0] if feats else 'unclassified:' + type(res).__name__, wit,
                     'XMLReader(ignore_errors=False) raised %s: %s' % (type(res).__name__, res))
-        return
+        return None
     loaded = res
-    logtext = '\n'.join(str(m) for m in log)
+    obs = {}
 
     check_id(ck, 'document', doc['id'], loaded._id, wit)
     for t, x in doc['attrs']:
-        if t not in V11_DOC and t != '#comment' and x not in logtext:
-            ck.fail('dropped-is-logged', 'unsupported-element-in-document', wit,
-                    'document element <%s>%s dropped without a conversion_log entry' % (t, x))
+        if t not in V11_DOC and t != '#comment' and not absent(x) and x != '' and not logged(log, t, x):
+            ck.fail('dropped-is-logged', 'unsupported-element-in-document' + _suffix(x), wit,
+                    'document element <%s>%r dropped without a conversion_log entry' % (t, x))
 
     def secs(parent_exp, parent_got, path):
         got = list(list.__iter__(parent_got._sections))
+        obs[(path, 'section-count')] = (len(got), 'strings')
         if len(got) != len(parent_exp):
             ck.fail('section-tree', 'section-count', wit, '%s: %d sections expected, %d found'
                     % (path, len(parent_exp), len(got)))
             return
         check_names(ck, 'section', [s['name'] for s in parent_exp], [g._name for g in got], wit)
-        for s, g in zip(parent_exp, got):
+        for i, (s, g) in enumerate(zip(parent_exp, got)):
             here = '%s/%s' % (path, s['name'])
+            key = '%s/%d' % (path, i)
+            obs[(key, 'section-name')] = (g._name, 'strings')
+            obs[(key, 'section-type')] = (g.type, 'strings')
             if g.type != s['type']:
                 ck.fail('section-tree', 'section-type', wit, '%s: type %r became %r' % (here, s['type'], g.type))
             for tag, field in (('definition', '_definition'), ('reference', '_reference')):
                 want = _first(s['attrs'], tag)
-                if want is not None and getattr(g, field) != want:
-                    ck.fail('section-tree', 'section-' + tag, wit, '%s: %s %r became %r'
+                obs[(key, 'section-' + tag)] = (getattr(g, field), _kinds([x for t, x in s['attrs'] if t == tag]))
+                if want is not None and not same_scalar(want, getattr(g, field)):
+                    ck.fail('section-tree', 'section-' + tag + _suffix(want), wit, '%s: %s %r became %r'
                             % (here, tag, want, getattr(g, field)))
             check_id(ck, 'section', s['id'], g._id, wit)
             for t, x in s['attrs']:
-                if t not in V11_SEC and t != '#comment' and x not in logtext:
-                    ck.fail('dropped-is-logged', 'unsupported-element-in-section', wit,
-                            '%s: element <%s>%s dropped without a conversion_log entry' % (here, t, x))
-            props(s, g, here)
-            secs(s['secs'], g, here)
+                if t not in V11_SEC and t != '#comment' and not absent(x) and x != '' and not logged(log, t, x):
+                    ck.fail('dropped-is-logged', 'unsupported-element-in-section' + _suffix(x), wit,
+                            '%s: element <%s>%r dropped without a conversion_log entry' % (here, t, x))
+            props(s, g, here, key)
+            secs(s['secs'], g, key)
 
-    def props(s, g, here):
+    def props(s, g, here, key):
         named = [p for p in s['props'] if p['name'] is not None]
         for p in s['props']:
             if p['name'] is None:
                 marker = _first(p['attrs'], 'definition')
-                if marker and marker not in logtext:
+                if marker and not logged(log, 'definition', marker):
                     ck.fail('dropped-is-logged', 'property-without-name', wit,
                             '%s: unnamed property (%s) dropped without a conversion_log entry' % (here, marker))
         got = list(list.__iter__(g._props))
+        obs[(key, 'property-count')] = (len(got), 'strings')
         if len(got) != len(named):
             ck.fail('properties-kept', 'property-count:' + names_feature([p['name'] for p in named]), wit,
                     '%s: %d named properties expected, %d found' % (here, len(named), len(got)))
             return
         check_names(ck, 'property', [p['name'] for p in named], [q._name for q in got], wit)
-        for p, q in zip(named, got):
+        for j, (p, q) in enumerate(zip(named, got)):
             exp, dropped, conflicts = model_prop(p)
             pid = '%s:%s' % (here, p['name'])
+            pkey = '%s:%d' % (key, j)
             texts = [v['text'] for v in p['values']]
             vfeat = values_feature(texts)
+            obs[(pkey, 'name')] = (q._name, 'strings')
+            obs[(pkey, 'dtype')] = (q._dtype, _kinds(_column(p, 'type')))
             # dtype
             if exp['dtype'] is not None and q._dtype != exp['dtype']:
                 ck.fail('dtype-kept', 'binary' if exp['dtype'] == 'text' and 'binary' in json.dumps(p) else
                         'dtype-' + _placement(p, 'type'), wit,
                         '%s: dtype %r expected, got %r' % (pid, exp['dtype'], q._dtype))
             # values in order
-            st2, want = h.call(lambda: [conv_value(q._dtype, s) for s in exp['values']])
             gotvals = list(q._values)
-            if st2 == 'ret' and [_canon(v) for v in gotvals] != [_canon(v) for v in want]:
-                ck.fail('values-preserved', vfeat, wit, '%s: value elements %r became values %r (dtype %r)'
-                        % (pid, texts, gotvals, q._dtype))
+            entries = exp['values']
+            if any(kind(e) == 'native-list' for e in entries):
+                # a list in place of a scalar: the statement does not say whether it is one value or several;
+                # the scalar values around it still have to be there, in order
+                k = 0
+                for e in entries:
+                    if kind(e) == 'native-list':
+                        continue
+                    while k < len(gotvals) and _match_value(e, gotvals[k], q._dtype) is False:
+                        k += 1
+                    if k >= len(gotvals):
+                        ck.fail('values-preserved', 'value-beside-native-list:' + kind(e), wit,
+                                '%s: value contents %r became values %r (dtype %r): %r is missing'
+                                % (pid, texts, gotvals, q._dtype, e))
+                        break
+                    k += 1
+            else:
+                obs[(pkey, 'values')] = (gotvals, _kinds(texts))
+                verdicts = [_match_value(e, gv, q._dtype) for e, gv in zip(entries, gotvals)]
+                if None not in verdicts and (len(entries) != len(gotvals) or False in verdicts):
+                    bad = verdicts.index(False) if False in verdicts else min(len(entries), len(gotvals))
+                    if bad < len(entries) and is_nat(entries[bad]):
+                        vfeat = 'value:' + kind(entries[bad])
+                    elif bad >= len(entries) and any(is_nat(t) for t in texts):
+                        vfeat = 'extra-value-beside:' + _kinds(texts)
+                    ck.fail('values-preserved', vfeat, wit, '%s: value elements %r became values %r (dtype %r)'
+                            % (pid, texts, gotvals, q._dtype))
             # lifted attributes
-            for field, key in (('_unit', 'unit'), ('_value_origin', 'value_origin'), ('_definition', 'definition'),
-                               ('_reference', 'reference'), ('_dependency', 'dependency'),
-                               ('_dependency_value', 'dependency_value')):
-                if exp[key] is not None and getattr(q, field) != exp[key]:
-                    src_tag = {'value_origin': 'filename'}.get(key, key)
-                    ck.fail(key + '-kept', '%s-%s' % (key, _placement(p, src_tag)), wit,
-                            '%s: %s %r expected, got %r' % (pid, key, exp[key], getattr(q, field)))
+            for field, fkey in (('_unit', 'unit'), ('_value_origin', 'value_origin'), ('_definition', 'definition'),
+                                ('_reference', 'reference'), ('_dependency', 'dependency'),
+                                ('_dependency_value', 'dependency_value')):
+                src_tag = {'value_origin': 'filename'}.get(fkey, fkey)
+                obs[(pkey, fkey)] = (getattr(q, field), _kinds(_column(p, src_tag)))
+                if exp[fkey] is not None and not same_scalar(exp[fkey], getattr(q, field)):
+                    ck.fail(fkey + '-kept', '%s-%s%s' % (fkey, _placement(p, src_tag), _suffix(exp[fkey])), wit,
+                            '%s: %s %r expected, got %r' % (pid, fkey, exp[fkey], getattr(q, field)))
+            obs[(pkey, 'uncertainty')] = (q._uncertainty, _kinds(_column(p, 'uncertainty')))
             if exp['uncertainty'] is not None:
+                want = nat(exp['uncertainty']) if is_nat(exp['uncertainty']) else exp['uncertainty']
                 try:
-                    same = float(q._uncertainty) == float(exp['uncertainty'])
+                    same = not isinstance(q._uncertainty, bool) and float(q._uncertainty) == float(want)
                 except (TypeError, ValueError):
                     same = False
                 if not same:
-                    ck.fail('uncertainty-kept', 'uncertainty-' + _placement(p, 'uncertainty'), wit,
+                    ck.fail('uncertainty-kept', 'uncertainty-' + _placement(p, 'uncertainty') +
+                            _suffix(exp['uncertainty']), wit,
                             '%s: uncertainty %r expected, got %r' % (pid, exp['uncertainty'], q._uncertainty))
             check_id(ck, 'property', p['id'], q._id, wit)
             for where, t, x in dropped:
-                if x not in logtext:
-                    ck.fail('dropped-is-logged', where, wit,
-                            '%s: element <%s>%s dropped without a conversion_log entry' % (pid, t, x))
+                if x != '' and not logged(log, t, x):
+                    ck.fail('dropped-is-logged', where + _suffix(x), wit,
+                            '%s: element <%s>%r dropped without a conversion_log entry' % (pid, t, x))
             for t, x in conflicts:
-                if x not in logtext:
-                    ck.fail('dropped-is-logged', 'conflicting-value-attribute-' + t, wit,
+                if not logged(log, t, x):
+                    ck.fail('dropped-is-logged', 'conflicting-value-attribute-' + t + _suffix(x), wit,
                             '%s: differing later %s %r discarded without a conversion_log entry' % (pid, t, x))
 
     secs(doc['secs'], loaded, '')
+    return obs
+
+
+def _suffix(x):
+    """Feature suffix naming the native scalar involved ('' for strings, so string features keep their names)."""
+    return ':' + kind(x) if is_nat(x) else ''
 
 
 def _canon(v):
@@ -711,6 +819,12 @@ def _canon(v):
     if isinstance(v, str):
         return ('s', v.strip())
     return ('o', repr(v))
+
+
+def _column(p, tag):
+    """All contents given for attribute `tag` of a Property: its own and one entry per value element."""
+    tags = (tag, 'dtype') if tag == 'type' else (tag,)
+    return [x for t, x in p['attrs'] if t in tags] + [x for v in p['values'] for t, x in v['attrs'] if t in tags]
 
 
 def _placement(p, tag):
@@ -730,9 +844,45 @@ def _placement(p, tag):
         return 'absent'
     if len(have) == 1:
         return 'on-first-value' if col[0] is not None else 'on-later-value'
-    if len(set(have)) == 1:
+    if all(same_abs(have[0], x) for x in have[1:]):
         return 'agreeing-on-several-values'
     return 'conflicting-on-several-values'
+
+
+def loose_eq(a, b):
+    """Same 1.1 content up to the spelling of a scalar (1 ~ '1' ~ 1.0, True ~ 'true')."""
+    if isinstance(a, list) and isinstance(b, list):
+        return len(a) == len(b) and all(loose_eq(x, y) for x, y in zip(a, b))
+    if type(a) is type(b) and a == b:
+        return True
+    if a is None or b is None or isinstance(a, list) or isinstance(b, list):
+        return False
+    sa, sb = str(a).strip(), str(b).strip()
+    if sa == sb or (sa.lower() == sb.lower() and sa.lower() in ('true', 'false')):
+        return True
+    try:
+        return float(sa) == float(sb)
+    except ValueError:
+        return False
+
+
+def check_formats_agree(ck, doc, observed, wit):
+    """The XML, JSON and YAML spelling of one abstract 1.0 document convert to the same 1.1 content."""
+    base = observed.get('XML')
+    if base is None:
+        return
+    for fmt in ('JSON', 'YAML'):
+        other = observed.get(fmt)
+        if other is None:
+            continue
+        for key in sorted(set(base) | set(other)):
+            a, b = base.get(key), other.get(key)
+            if a is None or b is None or loose_eq(a[0], b[0]):
+                continue         # (a missing entry follows a differing count, which is reported)
+            ck.fail('formats-agree', '%s:%s' % (key[1], a[1]), dict(wit, format='XML vs ' + fmt),
+                    '%s %s: the XML source gives %r, the %s source of the same document gives %r'
+                    % (key[0], key[1], a[0], fmt, b[0]))
+            break
 
 
 def _raw_duplicate_names(ck, doc, out, wit):
@@ -779,9 +929,9 @@ CONFLICT = {
 PATTERNS = ('first', 'later', 'agree', 'conflict', 'later-conflict')
 
 
-def attr_column(tag, pattern, n):
+def attr_column(tag, pattern, n, c=None):
     """Per value element the text of attribute `tag` (or None) for a placement pattern."""
-    c = CONFLICT[tag]
+    c = c or CONFLICT[tag]
     if pattern == 'first':
         return [c[0]] + [None] * (n - 1)
     if pattern == 'later':
@@ -979,6 +1129,143 @@ def gen_misc_cases(tier, rnd):
     yield ('doc-attrs', 'none'), D([S('s')], attrs=[])
 
 
+# value contents per data type family: native scalars of every kind next to their string spellings
+FAMILIES = [
+    ('int', [N(0), N(1), N(-3), N(10 ** 12), '0', '7'], ('int', 'float', 'string', None)),
+    ('float', [N(0.0), N(1.5), N(-0.25), N(1e-9), N(0), N(2), '0.0', '2.5'], ('float', 'string', None)),
+    ('boolean', [N(True), N(False), 'true', 'False'], ('boolean', 'string', None)),
+    ('date', [ND('2008-07-07'), '2001-02-03'], ('date', None)),
+    ('datetime', [NDT('2008-07-07 12:30:01'), '2001-02-03 04:05:06'], ('datetime', None)),
+]
+# contents that are no scalar value: unset (null), empty, lists
+NON_VALUES = [NULL, '', N([1, 2]), N([]), N(['a', 'b']), N([[1], [2]]), N([None]), N([0])]
+# native contents of the value attributes, as triples for the placement patterns
+NATIVE_TRIPLES = {
+    'unit': [(N(0), N(5), 'x'), (N(False), N(True), 'y'), (N(0.0), N(2.5), N(-1))],
+    'uncertainty': [(N(0), N(0.5), N(2)), (N(0.0), N(1), '0.25'), ('0', N(0), N(0.0)), (N(11), N(12), N(13))],
+    'filename': [(N(0), N(5), 'x'), (N(False), N(2.5), N(2008))],
+    'definition': [(N(0), N(5), 'x'), (N(False), N(0.0), N(True))],
+    'reference': [(N(0), N(1234), 'x'), (N(0.0), N(False), N(-7))],
+}
+NATIVE_SCALARS = [N(0), N(5), N(-3), N(0.0), N(2.5), N(False), N(True), NULL, '']
+
+
+def gen_native_cases(tier, rnd):
+    """group N: native JSON / YAML scalars in every position that carries content."""
+    thorough = tier != 'quick'
+    # N1 value contents: single, all pairs (all triples in the thorough tier), the data type given or not
+    for fam, pool, dtypes in FAMILIES:
+        for typ in dtypes:
+            tattr = [('type', typ)] if typ else []
+            for e in pool:
+                yield ('native-value', fam, typ, 1, kind(e), spell(e)), one_prop_doc(P('p', [V(e, *tattr)]))
+            for a, b in itertools.product(pool, repeat=2):
+                yield ('native-value', fam, typ, 2, kind(a), spell(a), kind(b), spell(b)), one_prop_doc(
+                    P('p', [V(a, *tattr), V(b)]))
+            if typ:
+                # the data type on every value element, under the dict formats' own 'dtype' spelling too
+                for a, b in itertools.product(pool[:4], repeat=2):
+                    yield ('native-value-typed-all', fam, typ, kind(a), spell(a), kind(b), spell(b)), one_prop_doc(
+                        P('p', [V(a, ('dtype', typ), ('unit', 'mV')), V(b, ('dtype', typ), ('unit', 'mV'))]))
+            if thorough and fam in ('int', 'float', 'boolean'):
+                for tx in itertools.product(pool, repeat=3):
+                    yield ('native-value', fam, typ, 3) + tuple(spell(t) + kind(t) for t in tx), one_prop_doc(
+                        P('p', [V(tx[0], *tattr), V(tx[1]), V(tx[2])]))
+        # a falsy one several times between others (value order)
+        for e in pool:
+            typ = dtypes[0]
+            others = [x for x in pool if isinstance(x, str)]
+            yield ('native-value-repeated', fam, kind(e), spell(e)), one_prop_doc(
+                P('p', [V(e, ('type', typ)), V(others[0]), V(e), V(others[-1]), V(e)]))
+    # N2 null / empty / list as value content, alone and among real values
+    for x in NON_VALUES:
+        lab = (kind(x), spell(x))
+        yield ('non-value', 'alone') + lab, one_prop_doc(P('p', [V(x)]))
+        yield ('non-value', 'first') + lab, one_prop_doc(P('p', [V(x), V('a')]))
+        yield ('non-value', 'last') + lab, one_prop_doc(P('p', [V('a'), V(x)]))
+        yield ('non-value', 'middle') + lab, one_prop_doc(P('p', [V('a'), V(x), V('b')]))
+        yield ('non-value', 'twice') + lab, one_prop_doc(P('p', [V(x), V(x)]))
+        yield ('non-value', 'with-attributes') + lab, one_prop_doc(
+            P('p', [V(x, ('unit', 'mV'), ('type', 'int')), V('1'), V(N(2))]))
+    # N3 native contents of the value attributes x placement
+    nums = ['1', '2', '3']
+    for tag, triples in NATIVE_TRIPLES.items():
+        for ti, trip in enumerate(triples):
+            for n in (1, 2, 3):
+                pats = ('first',) if n == 1 else (('first', 'later', 'agree', 'conflict') if n == 2 else PATTERNS)
+                for pat in pats:
+                    col = attr_column(tag, pat, n, trip)
+                    vals = [V(nums[i], *([(tag, col[i])] if col[i] is not None else [])) for i in range(n)]
+                    yield ('native-attr', tag, ti, pat, n), one_prop_doc(P('p', vals))
+    # all five with native contents on one value element / spread over the value elements
+    for ti in range(2):
+        yield ('native-attr', 'all', ti, 'first'), one_prop_doc(P('p', [
+            V('1', *[(t, NATIVE_TRIPLES[t][ti][0]) for t in NATIVE_TRIPLES]), V('2')]))
+        yield ('native-attr', 'all', ti, 'spread'), one_prop_doc(P('p', [
+            V(str(i), (t, NATIVE_TRIPLES[t][ti][0])) for i, t in enumerate(NATIVE_TRIPLES)]))
+    # N4 unset (null) and empty attribute entries around a real one
+    for tag in VAL_ATTRS:
+        real = CONFLICT[tag][0]
+        for ci, col in enumerate(([NULL, real], ['', real], [real, NULL], [real, ''], [NULL], [''],
+                                  [NULL, NULL, real], [NULL, '', real], [None, NULL, real])):
+            vals = [V(nums[i], *([(tag, col[i])] if col[i] is not None else [])) for i in range(len(col))]
+            yield ('unset-attr', tag, ci), one_prop_doc(P('p', vals))
+    # N5 unsupported elements of a value element with native contents (have to be logged)
+    for tag in ('checksum', 'encoder', 'foo'):
+        for x in NATIVE_SCALARS:
+            yield ('native-unsupported', 'first-value', tag, kind(x)), one_prop_doc(
+                P('p', [V('1', (tag, x), ('unit', 'mV')), V('2')]))
+            yield ('native-unsupported', 'later-value', tag, kind(x)), one_prop_doc(
+                P('p', [V('1'), V('2', ('unit', 'mV'), (tag, x))]))
+    # N6 Property level entries
+    for tag in ('definition', 'dependency', 'dependency_value', 'dependencyvalue', 'mapping', 'foo'):
+        for x in NATIVE_SCALARS:
+            attrs = [(tag, x)]
+            if tag.startswith('dependency') and tag != 'dependency':
+                attrs.insert(0, ('dependency', 'dep'))
+            yield ('native-property-entry', tag, kind(x)), one_prop_doc(P('p', [V('1')], attrs))
+    for x in (NULL, ''):
+        for pat in ('first', 'agree', 'conflict'):
+            col = attr_column('definition', pat, 2)
+            vals = [V(nums[i], *([('definition', col[i])] if col[i] is not None else [])) for i in range(2)]
+            yield ('unset-own-definition', kind(x), pat), one_prop_doc(P('p', vals, [('definition', x)]))
+    # N7 Section level entries (top level and sub Section)
+    for tag in ('definition', 'reference', 'mapping', 'foo'):
+        for x in NATIVE_SCALARS:
+            yield ('native-section-entry', 'top', tag, kind(x)), D([S('s', [P('p', [V('1')])], attrs=[(tag, x)])])
+            yield ('native-section-entry', 'sub', tag, kind(x)), D([S('s', [], [S('c', attrs=[(tag, x)])])])
+    # N8 Document level entries
+    for tag, pool in (('author', NATIVE_SCALARS), ('version', [N(1), N(1.0), N(1.13), N(0), NULL, '']),
+                      ('date', [ND('2008-07-07'), NULL, '']),
+                      ('foo', NATIVE_SCALARS)):
+        for x in pool:
+            attrs = [a for a in (('author', 'me'), ('date', '2008-07-07'), ('version', 'v1.13')) if a[0] != tag]
+            yield ('native-document-entry', tag, kind(x), spell(x)), D([S('s')], attrs=attrs + [(tag, x)])
+    # N9 ids
+    for x in (NULL, N(0), N(5), N(False), N(2.5)):
+        yield ('native-id', 'document', kind(x)), D([S('s', [P('p', [V('1')])])], id=x)
+        yield ('native-id', 'section', kind(x)), D([S('s', [P('p', [V('1')])], id=x)])
+        yield ('native-id', 'subsection', kind(x)), D([S('s', [], [S('c', id=x)])])
+        yield ('native-id', 'property', kind(x)), D([S('s', [P('p', [V('1')], id=x)])])
+
+
+SPECIAL_TEXTS = ['\u00e9t\u00e9', '\u00b5V', 'a<b&c>d', '\u65e5\u672c', 'tab\there', "q'\"q"]
+
+
+def gen_text_cases(tier, rnd):
+    """group T: non ASCII and markup characters in every text position (sources are UTF-8)."""
+    for t in SPECIAL_TEXTS:
+        yield ('text', 'value', t), one_prop_doc(P('p', [V(t), V('x')]))
+        yield ('text', 'value-attributes', t), one_prop_doc(
+            P('p', [V('1', ('unit', t), ('filename', t), ('definition', t), ('reference', t))]))
+        yield ('text', 'property-entries', t), one_prop_doc(
+            P('p', [V('1')], [('definition', t), ('dependency', t), ('dependency_value', t)]))
+        yield ('text', 'section-entries', t), D([S('s', [P('p', [V('1')])], attrs=[('definition', t), ('reference', t)])])
+        yield ('text', 'dropped', t), one_prop_doc(P('p', [V('1', ('checksum', t + 'v'))], [('mapping', t + 'p')]))
+        if '<' not in t and '\t' not in t:
+            yield ('text', 'names', t), D([S(t, [P(t, [V('1')]), P(t, [V('2')])]), S(t)])
+
+
 def gen_tree_cases(tier, rnd):
     """group H: all forest shapes, random filling from every feature above."""
     per_shape = 6 if tier == 'quick' else 100
@@ -987,15 +1274,25 @@ def gen_tree_cases(tier, rnd):
 
     def rnd_val(numeric):
         text = rnd.choice(['1', '2', '3']) if numeric else rnd.choice(TEXTS_ALL)
+        if rnd.random() < 0.3:        # a native scalar (of a kind every data type on offer can hold)
+            text = rnd.choice([N(0), N(0), N(1), N(-3)] if numeric else [N(False), N(True), N(0), N(0.0), N(1.5), ''])
+        if rnd.random() < 0.03:
+            text = NULL
         attrs = []
         for t in VAL_ATTRS:
             if rnd.random() < 0.25:
                 x = rnd.choice(CONFLICT[t])
                 if t == 'type' and not numeric:
                     x = rnd.choice(['string', 'text', 'binary'])
+                if t != 'type' and rnd.random() < 0.3:
+                    x = rnd.choice([N(0), N(0.0), N(0.5), N(2)] if t == 'uncertainty' else
+                                   [N(0), N(0.0), N(False), N(7), N(True)])
+                if rnd.random() < 0.03:
+                    x = rnd.choice([NULL, ''])
                 attrs.append((t, x))
         if rnd.random() < 0.1:
-            attrs.append((rnd.choice(['encoder', 'checksum']), 'dropval%d' % next(k)))
+            attrs.append((rnd.choice(['encoder', 'checksum']),
+                          rnd.choice([N(0), N(False), N(0.0)]) if rnd.random() < 0.3 else 'dropval%d' % next(k)))
         return V(text, *attrs)
 
     def rnd_prop():
@@ -1007,6 +1304,8 @@ def gen_tree_cases(tier, rnd):
             attrs += [('dependency', 'dep'), (rnd.choice(['dependency_value', 'dependencyvalue']), 'depval')]
         if rnd.random() < 0.2:
             attrs.append((rnd.choice(UNSUPPORTED), 'dropprop%d' % next(k)))
+        if rnd.random() < 0.03:       # native entries of the Property itself
+            attrs = [(t, rnd.choice([N(0), N(False), N(2.5), NULL])) for t, _ in attrs]
         name = rnd.choice(['p', 'p', 'q', 'p-2'])
         if rnd.random() < 0.07:
             name = None
@@ -1024,6 +1323,8 @@ def gen_tree_cases(tier, rnd):
                 attrs.append(('reference', 'sref'))
             if rnd.random() < 0.2:
                 attrs.append((rnd.choice(UNSUPPORTED), 'dropsec%d' % next(k)))
+            if rnd.random() < 0.03:
+                attrs = [(t, rnd.choice([N(0), N(False), N(2.5), NULL])) for t, _ in attrs]
             out.append(S(rnd.choice(['a', 'a', 'b', 'a-2']), [rnd_prop() for _ in range(rnd.choice((0, 1, 2, 3)))],
                          build(sub), attrs, id=rnd.choice(ID_SPECS[:5]), type_=rnd.choice(['t', 'setup/daq'])))
         return out
@@ -1039,7 +1340,7 @@ def gen_tree_cases(tier, rnd):
 def all_cases(tier, seed):
     rnd = random.Random(seed)
     for gen in (gen_attr_cases, gen_value_cases, gen_name_cases, gen_id_cases, gen_unsupported_cases,
-                gen_misc_cases, gen_tree_cases):
+                gen_misc_cases, gen_native_cases, gen_text_cases, gen_tree_cases):
         for key, doc in gen(tier, rnd):
             yield key, doc
 
@@ -1049,6 +1350,10 @@ def all_cases(tier, seed):
 # ---------------------------------------------------------------------------------------------
 
 DECL_GROUPS = ('empty', 'order', 'values-typed', 'dependency')
+# groups whose JSON / YAML sources are also given with sorted and with reverse sorted keys in the quick tier
+# (every 7th document of the other groups; all documents in the thorough tier)
+ORDER_GROUPS = ('attr', 'attr-own-definition', 'binary', 'unsupported', 'dependency', 'unnamed-property', 'order',
+                'native-attr', 'unset-attr', 'unset-own-definition', 'native-unsupported')
 
 
 def _sha(path):
@@ -1076,8 +1381,9 @@ def run_convert(tier, seed):
     shutil.rmtree(WORK, ignore_errors=True)
     os.makedirs(WORK)
     try:
-        for key, doc in all_cases(tier, seed):
+        for idx, (key, doc) in enumerate(all_cases(tier, seed)):
             nameless = 'section-without-name' in doc_features(doc, 'XML', 'file')
+            observed = {}
             for fmt in ('XML', 'JSON', 'YAML'):
                 printer, ext = PRINTERS[fmt]
                 text = printer(doc)
@@ -1087,6 +1393,8 @@ def run_convert(tier, seed):
                 kinds = ['file', 'stringio']
                 if fmt == 'XML' and key[0] in DECL_GROUPS:
                     kinds += ['stringio-decl-encoding', 'stringio-decl-plain']
+                if fmt != 'XML' and (key[0] in ORDER_GROUPS or tier != 'quick' or idx % 7 == 0):
+                    kinds += ['stringio-keys-sorted', 'stringio-keys-reversed']
                 for src in kinds:
                     col.case(cls_key=(key, fmt, src), sample='%r %s %s' % (key, fmt, src))
                     if src == 'file':
@@ -1104,6 +1412,9 @@ def run_convert(tier, seed):
                             # repository's own tests do); the declared variants are separate, labelled cases
                             stext = to_xml(doc, decl={'stringio': '', 'stringio-decl-encoding': XML_DECL,
                                                       'stringio-decl-plain': '<?xml version="1.0"?>\n'}[src])
+                        elif src.startswith('stringio-keys-'):
+                            # the same mappings with their keys in another order
+                            stext = printer(doc, order=src[len('stringio-keys-'):])
                         wit = {'doc': doc, 'format': fmt, 'source': src, 'text': stext if len(stext) < 1500 else None}
                         sio = io.StringIO(stext)
                         st, res = h.call(_convert, sio, fmt)
@@ -1114,10 +1425,10 @@ def run_convert(tier, seed):
                         # only "the source is never modified" (above) is checked
                         continue
                     if st == 'exc':
-                        feats = doc_features(doc, fmt, src)
+                        feats = doc_features(doc, fmt, 'stringio' if src.startswith('stringio') else src)
                         if src == 'stringio-decl-encoding':
                             feats.insert(0, 'stringio-xml-source-with-encoding-declaration')
-                        pick = [f for f in feats if f.startswith('stringio-') or f.startswith('xml-comment')]
+                        pick = [f for f in feats if f.startswith(('native-', 'stringio-', 'xml-comment'))]
                         ck.fail('converts', pick[0] if pick else 'unclassified:' + type(res).__name__, wit,
                                 'convert(%r) raised %s: %s' % (fmt, type(res).__name__, res))
                         continue
@@ -1125,7 +1436,11 @@ def run_convert(tier, seed):
                     if not isinstance(out, str) or '<odML' not in out:
                         ck.fail('converts', 'no-output', wit, 'convert returned %r' % (out,))
                         continue
-                    check_case(ck, doc, fmt, src, out, log, wit)
+                    obs = check_case(ck, doc, fmt, src, out, log, wit)
+                    if src == 'file':
+                        observed[fmt] = obs
+            if not nameless:
+                check_formats_agree(ck, doc, observed, {'doc': doc, 'source': 'file'})
     finally:
         shutil.rmtree(WORK, ignore_errors=True)
     res = col.result()
@@ -1147,7 +1462,7 @@ def run_write(tier, seed):
         for i, (key, doc) in enumerate(all_cases(tier, seed)):
             if i % step:
                 continue
-            if doc_features(doc, 'XML', 'file'):
+            if doc_features(doc, 'XML', 'file') or doc_features(doc, 'JSON', 'file'):
                 continue        # documents the converter cannot handle are run_convert's business
             for fmt in ('XML', 'JSON', 'YAML'):
                 printer, ext = PRINTERS[fmt]
